@@ -59,4 +59,26 @@ PLAN = {
         "assumptions": COMMON_ASSUME,
         "tiers": {"quick": {"params": {"faults": 1}, "timeout_s": 2400}, "thorough": {"params": {"faults": 2}, "timeout_s": 9000}},
     },
+    "C06": {
+        "level_text": "Inbox POSTs through the whole stack with symbolic ids whose hosts are free strings: Update/Delete with 1..2 objects (IRI or embedded) mutate the store only if every object host equals the activity host, and a cross-origin request is refused without any store change; Accept (1..2 actors, the Follow embedded or by IRI, the stored value under the Follow id of any kind incl. absent, a Follow of another actor, a Follow naming 1..2 objects) updates following only under the documented three conditions; Undo (1..2 actors, undone activity by IRI or embedded with 1..2 actors) is accepted only if its actors cover the undone activity's; Blocked is called exactly once, before any side effect, with the id of every actor whether written as IRI or embedded object.",
+        "level_note": "Trusted: symgo, stdlib models (url host = uninterpreted function of the IRI string), cvc5; hosts 'differing only in port/case/sub-domain' are simply unequal strings",
+        "pkg": "./pub",
+        "explanation": EXPL + "C06: authority predicates recomputed by the harness over the same symbolic world and compared with what the ghost log shows was written.",
+        "bounds": "1..2 objects, 1..2 actors, 1..2 objects on the stored Follow, recursion limits 1, no injected faults",
+        "outside": "3 or more objects/actors",
+        "assumptions": COMMON_ASSUME,
+        "covers_by_harness": {"VfC06_Origin_.*": ["applied", "cross-origin"], "VfC06_Accept": ["following-updated", "refused-or-ignored"], "VfC06_Undo": ["accepted", "not-covered"]},
+        "tiers": {"quick": {"params": {"nobj": 2, "nactors": 2}, "timeout_s": 1200}, "thorough": {"params": {"nobj": 3, "nactors": 3}, "timeout_s": 6000}},
+    },
+    "C04": {
+        "level_text": "For Create/Update/Delete, Like/Announce, Add/Remove and Follow received at an inbox (1..2 objects as IRI or embedded, symbolic ownership per id, existing likes/shares absent / Collection / OrderedCollection with 0..1 entries, targets ordered or unordered with 0..2 entries, OnFollow in all three modes, callback configuration none / wrapped / overriding 'other'), the Database writes in the ghost log equal the reference effect list: exactly the named objects for Create/Update/Delete; the activity id first in likes/shares of exactly the owned objects; exact list contents for owned Add/Remove targets; followers = following actors ++ previous followers and one delivered Accept/Reject with a fresh id, the owner as actor, the Follow as object, addressed to the following actors; no write to an id with Owns=false; with 'other' no default effect; wrapped callback after the last default write. (The Accept guard is C06's.)",
+        "level_note": "Trusted: symgo, stdlib models, cvc5; stored values come from the default-store menu of harness/pub/zz_vf_scen.go; owned Like/Announce objects are Notes, owned Add/Remove targets are collections",
+        "pkg": "./pub",
+        "explanation": EXPL + "C04: per-type reference effect lists computed in the harness and compared with the ghost log of Database/Transport calls.",
+        "bounds": "1..2 objects, 1..2 targets, pre-states of 0..2 entries, no injected faults in quick (thorough: 1)",
+        "outside": "3 or more objects; Accept/Reject/Undo/Block (no default store effect beyond C06's Accept)",
+        "assumptions": COMMON_ASSUME + ["every follower of the auto-reply has an application-stored inbox (delivery resolution is C02's subject)"],
+        "covers_by_harness": {"VfC04_(Create|Update|Delete|Like|Announce|Add|Remove)": ["applied", "other", "wrapped", "no-callback"], "VfC04_Follow": ["auto-reply", "nothing", "other"]},
+        "tiers": {"quick": {"params": {"nobj": 2, "ntargets": 2, "faults": 0}, "timeout_s": 1500}, "thorough": {"params": {"nobj": 2, "ntargets": 2, "faults": 1}, "timeout_s": 6000}},
+    },
 }
